@@ -476,6 +476,46 @@ def load_corpus(prop: str) -> list:
     return out
 
 
+def _anchor_files(prop: str) -> list[str]:
+    for l in (ROOT / "properties.jsonl").read_text().splitlines():
+        if l.strip():
+            d = json.loads(l)
+            if d["id"] == prop:
+                return [f for f in d["anchors"]["files"] if f.endswith(".py")]
+    return []
+
+
+def _start_coverage(chk):
+    """Statement coverage of the property's anchored source files while the harness drives the implementation
+    (thorough tier, or VERIF_COVERAGE=1): tells the reader how much of the anchored code the generated cases reach.
+    Informational only; any problem with the measurement is ignored."""
+    try:
+        import coverage
+        files = [str(REPO / f) for f in _anchor_files(chk.prop)]
+        cov = coverage.Coverage(include=files, data_file=None, branch=False)
+        cov.start()
+        return cov
+    except Exception:  # noqa
+        return None
+
+
+def _stop_coverage(chk, cov):
+    if cov is None:
+        return
+    try:
+        cov.stop()
+        out = {}
+        for f in _anchor_files(chk.prop):
+            try:
+                _, stmts, _, missing, _ = cov.analysis2(str(REPO / f))
+                out[f] = {"statements": len(stmts), "executed": len(stmts) - len(missing)}
+            except Exception:  # noqa  (file never imported)
+                out[f] = {"statements": None, "executed": 0}
+        chk.extra_cov["anchored_statement_coverage"] = out
+    except Exception:  # noqa
+        pass
+
+
 def main_for(module, argv=None):
     """Entry point used by ./check: python -m harness.run Cxx --tier quick [--replay path]."""
     import argparse
@@ -496,7 +536,11 @@ def main_for(module, argv=None):
             payload = json.loads(Path(a.replay).read_text())
             module.replay(chk, payload)
         else:
-            module.run(chk)
+            cov = _start_coverage(chk) if (a.tier == "thorough" or os.environ.get("VERIF_COVERAGE") == "1") else None
+            try:
+                module.run(chk)
+            finally:
+                _stop_coverage(chk, cov)
         return chk.finish()
     except Infra as e:
         print(f"INFRA-ERROR property={module.PROP}: {e}")
